@@ -2,7 +2,7 @@ package coroutines
 
 import (
 	"fmt"
-	"html/template"
+	"text/template"
 	"log/slog"
 	"strings"
 
